@@ -252,39 +252,22 @@ Definition real_hash (alg : Z) (data : list N) : list N :=
 Definition real_crypto (sign : list N -> list N) : crypto :=
   {| k_sign := sign; k_hmac := real_hmac; k_ctr := real_ctr; k_hash := real_hash |}.
 
-(* Mbi_ExportMixinAppCertBlockManifest.collect_data (mbi_mixin.py:2185-2195): a digest manifest whose algorithm differs from
-   get_hash_type_from_signature_size(cert_block.signature_size) is refused (SPSDKError; unknown size: SPSDKValueError) *)
+(* get_hash_type_from_signature_size (spsdk/crypto/utils.py): the digest algorithm that belongs to a signature size; the
+   refusal of any other manifest digest algorithm is part of MbiModel.collect (digest_guard there) *)
 Definition hash_type_of_sig (sg : nat) : option Z :=
   if Nat.eqb sg 64 then Some 1%Z else if Nat.eqb sg 96 then Some 2%Z else if Nat.eqb sg 132 then Some 3%Z else None.
-Definition digest_guard (c : mbi_class) (x : mbi) : res unit :=
-  match provider c SCollect with
-  | Some ExportMixinAppCertBlockManifest =>
-      if has c MixinManifestDigest && negb (m_digest x =? 0)%Z
-      then match m_cert x with
-           | Some cb => match hash_type_of_sig (cert_sig cb) with
-                        | Some a => if (a =? m_digest x)%Z then Ok tt else Err E_REJECT
-                        | None => Err E_REJECT
-                        end
-           | None => Ok tt
-           end
-      else Ok tt
-  | _ => Ok tt
-  end.
-(* the exporter this property is about: the C01 export pipeline behind that guard (harmless if MbiModel.collect has it too) *)
-Definition export_c02 (k : crypto) (c : mbi_class) (x : mbi) : res (list N) :=
-  if negb (supported c) then Err E_UNSUPPORTED else
-  bind (validate c x) (fun _ => bind (digest_guard c x) (fun _ => export_mbi k c x)).
+(* the exporter this property is about *)
+Definition export_c02 (k : crypto) (c : mbi_class) (x : mbi) : res (list N) := export_mbi k c x.
 
 (* export with the bytes handed to the signature provider *)
 Definition export_with_dts (k : crypto) (c : mbi_class) (x : mbi) : res (list N * list N) :=
   if negb (supported c) then Err E_UNSUPPORTED else
   bind (validate c x) (fun _ =>
-  bind (digest_guard c x) (fun _ =>
   bind (collect c x) (fun raw =>
   bind (encrypt k c x raw) (fun enc =>
   bind (post_encrypt c x enc) (fun enc2 =>
   bind (MbiModel.sign k c x enc2) (fun sg =>
-  bind (finalize k c x (fst sg) (snd sg)) (fun fin => Ok (flat fin, snd sg)))))))).
+  bind (finalize k c x (fst sg) (snd sg)) (fun fin => Ok (flat fin, snd sg))))))).
 
 (* ------------------------------------------------------------------ run_case *)
 Definition enc_obl (o : obligation) : value :=
